@@ -144,18 +144,31 @@ theorem c06_field_stats (lim : Nat) (pick : List Int → Nat) (collect : Bool) (
                   (evNe (evs.filter fun ev => ev.bin = b)) collect c) :=
   histAggRun_spec lim pick collect fval evs hp hl
 
-/-- **`c06_min/max/sum/total/notExists` per group and time bin** (group-by + field) -/
-theorem c06_group_stats (lim : Nat) (pick : List Int → Nat) (collect : Bool) (gval : Nat → String)
+/-- **`c06_min/max/sum/total/notExists` per group and time bin** (group-by + field).  `pb` = where documents of a
+group that lack the field are tallied (`missingBin`): in the bin without time (code as found) or in their own time
+bin (repaired); `twoMissing pb m g` counts those tallied under bin `m`. -/
+theorem c06_group_stats (pb : Bool) (lim : Nat) (pick : List Int → Nat) (collect : Bool) (gval : Nat → String)
     (fval : Nat → Option Int) (evs : List Ev)
     (hinj : ∀ a b, gval a = gval b → a = b) (hp : ParseOk fval evs)
     (hl : collect = true → ∀ m g, (twoDocs m g evs).length ≤ lim) :
-    ∃ a, twoRun lim pick collect gval fval evs = some a ∧
+    ∃ a, twoRun pb lim pick collect gval fval evs = some a ∧
       a.notExists = (evs.filter fun ev => ev.g.isNone && ev.f.isSome).length ∧
       ∀ m g,
-        (a.get ⟨m, gval g⟩ = none ∧ twoDocs m g evs = [] ∧ (m ≠ 0 ∨ twoMissing g evs = 0)) ∨
-        (∃ c, a.get ⟨m, gval g⟩ = some c ∧ (twoDocs m g evs ≠ [] ∨ (m = 0 ∧ twoMissing g evs ≠ 0)) ∧
-           Rep (evVals (fun s => (fval s).getD 0) (twoDocs m g evs)) (if m = 0 then twoMissing g evs else 0) collect c) :=
-  twoRun_spec lim pick collect gval fval evs hinj hp hl
+        (a.get ⟨m, gval g⟩ = none ∧ twoDocs m g evs = [] ∧ twoMissing pb m g evs = 0) ∨
+        (∃ c, a.get ⟨m, gval g⟩ = some c ∧ (twoDocs m g evs ≠ [] ∨ twoMissing pb m g evs ≠ 0) ∧
+           Rep (evVals (fun s => (fval s).getD 0) (twoDocs m g evs)) (twoMissing pb m g evs) collect c) :=
+  twoRun_spec pb lim pick collect gval fval evs hinj hp hl
+
+/-- **multi-valued fields** (outside the property's quantifier; stated for completeness): a document that carries
+several tokens of the aggregated / group field is seen exactly once by the aggregators, under exactly one of its
+tokens - the one with the largest index in the field's token order (`nodeOrAgg` lets the right stream go first on
+equal LIDs and the iterator does not advance past a LID it has answered); its other values are not aggregated. -/
+theorem c06_multi_valued (rev : Bool) (postings : List (List Nat)) (lids : List Nat)
+    (hp : ∀ l, l ∈ postings → l.Pairwise (· < ·)) (hl : LidsSorted rev lids) :
+    walk rev (buildStream rev postings) lids = lids.map (sourceOf (buildStream rev postings)) ∧
+    ∀ lid i, sourceOf (buildStream rev postings) lid = some i →
+      (∃ l, postings[i]? = some l ∧ lid ∈ l) ∧ ∀ j l, i < j → postings[j]? = some l → lid ∉ l :=
+  ⟨walk_eq rev _ lids (buildStream_sorted rev postings hp) hl, fun lid i h => buildStream_last rev postings lid i hp h⟩
 
 /-- time bins of the aggregations follow the histogram rule: `extractBin interval mid = mid - mid % interval`
 for a positive interval, the dummy bin 0 otherwise -/
@@ -176,17 +189,19 @@ documents `evs`); `TDoc` = a matching document at token level.  These are the st
 /-- **group-by + field (sum / min / max / avg / quantile per group and time bin)**: whatever tree of `Merge` calls
 combines the per-fraction (per-shard) results, the final bin `(time bin, group token)` exists exactly when some
 matching document belongs to it, and its container summarises (`Rep`: count, sum, min, max, samples) exactly the
-field values of all those documents of all fractions, with the group's not-exists count; `NotExists` of the result
+field values of all those documents of all fractions, with the not-exists count `groupMissing pb` (documents of
+the group without the field tallied under that bin: all under the bin without time for the code as found, under their
+own time bin for the repaired code); `NotExists` of the result
 counts the matching documents that carry the field but no group. -/
-theorem c06_group_stats_merged (lim : Nat) (pick : List Int → Nat) (collect : Bool) (t : MTree Frac)
+theorem c06_group_stats_merged (pb : Bool) (lim : Nat) (pick : List Int → Nat) (collect : Bool) (t : MTree Frac)
     (hok : ∀ f, f ∈ t.leaves → (∀ a b, f.gval a = f.gval b → a = b) ∧ ParseOk f.fval f.evs)
     (hl : collect = true → ∀ k, (groupVals k (t.leaves.flatMap Frac.tdocs)).length ≤ lim) :
-    (((t.map (Frac.groupLeaf lim pick collect)).eval (mergeLeaf lim pick)).a.notExists =
+    (((t.map (Frac.groupLeaf pb lim pick collect)).eval (mergeLeaf lim pick)).a.notExists =
         ((t.leaves.flatMap Frac.tdocs).filter fun d => d.g.isNone && d.v.isSome).length) ∧
-    ∀ k, ORep (groupPres k (t.leaves.flatMap Frac.tdocs)) (groupVals k (t.leaves.flatMap Frac.tdocs))
-      (groupMissing k (t.leaves.flatMap Frac.tdocs)) collect
-      (((t.map (Frac.groupLeaf lim pick collect)).eval (mergeLeaf lim pick)).a.get k) :=
-  group_stats_merged lim pick collect t hok hl
+    ∀ k, ORep (groupPres pb k (t.leaves.flatMap Frac.tdocs)) (groupVals k (t.leaves.flatMap Frac.tdocs))
+      (groupMissing pb k (t.leaves.flatMap Frac.tdocs)) collect
+      (((t.map (Frac.groupLeaf pb lim pick collect)).eval (mergeLeaf lim pick)).a.get k) :=
+  group_stats_merged pb lim pick collect t hok hl
 
 /-- **field without group-by, per time bin** (with the per-bin not-exists counts) -/
 theorem c06_field_stats_merged (lim : Nat) (pick : List Int → Nat) (collect : Bool) (t : MTree Frac)
@@ -207,6 +222,36 @@ theorem c06_counters_merged (lim : Nat) (pick : List Int → Nat) (t : MTree AS)
     ∀ k, ototal ((evalAS lim pick t).get k) = (t.leaves.map fun l => ototal (l.get k)).sum ∧
          ((evalAS lim pick t).get k).isSome = t.leaves.any fun l => (l.get k).isSome :=
   (evalAS_counters lim pick t hleaf).2
+
+/-! ## the empty container's sentinels (`Min: math.MaxInt64`, `Max: math.MinInt64`) are never consulted
+
+Field values are float64 parsed from tokens and may lie beyond the int64 range (`1e19`, `-3e19`).  The sentinels
+are +-2^63, not +-Inf, so they are *not* neutral for min / max; `Merge` and `InsertNTimes` therefore test
+`Total == 0` (`c06_x_container` re-checks that on every run) and the theorems hold for ANY integer values. -/
+
+/-- min / max after any tree of `Merge` calls are the least / greatest of all the fractions' values - no bound on
+the magnitude of the values (in particular beyond the int64 sentinels) -/
+theorem c06_minmax_any_magnitude (lim : Nat) (pick : List Int → Nat) (collect : Bool) (t : MTree SLeaf)
+    (hleaf : ∀ l, l ∈ t.leaves → Rep l.vals l.ne collect l.c)
+    (hl : collect = true → (allVals t.leaves).length ≤ lim) (hne : allVals t.leaves ≠ []) :
+    IsMin ((t.eval fun x y => ⟨SC.merge lim pick x.c y.c, [], 0⟩).c).min (allVals t.leaves) ∧
+    IsMax ((t.eval fun x y => ⟨SC.merge lim pick x.c y.c, [], 0⟩).c).max (allVals t.leaves) :=
+  let r := MTree.rep lim pick collect t hleaf hl
+  ⟨r.min hne, r.max hne⟩
+
+/-- merging into the fresh accumulator that `AggregatableSamples.Merge` creates takes the incoming Min / Max
+as they are, whatever their magnitude -/
+theorem c06_fresh_accumulator (lim : Nat) (pick : List Int → Nat) (c : SC) (h : c.total ≠ 0) :
+    (SC.merge lim pick SC.new c).min = c.min ∧ (SC.merge lim pick SC.new c).max = c.max := by
+  simp [SC.merge, h, SC.new]
+
+/-- the sentinels are not neutral: folding them in with min / max (instead of testing `Total == 0`) is wrong for
+values beyond the int64 range - witness 10^19 resp. -10^19 -/
+theorem c06_sentinel_not_neutral :
+    Min.min SC.new.min (10000000000000000000 : Int) ≠ 10000000000000000000 ∧
+    Max.max SC.new.max (-10000000000000000000 : Int) ≠ -10000000000000000000 ∧
+    (SC.merge 8096 (fun _ => 0) SC.new ⟨10000000000000000000, 10000000000000000000, 10000000000000000000, 1, 0, []⟩).min
+      = 10000000000000000000 := by decide
 
 /-! ## values -/
 
@@ -299,22 +344,59 @@ def witnessFval : Nat → Option Int := fun i => some (i + 1)
 
 /-- the model (= the code) answers NaN for the maximum of {1,2,3} ... -/
 theorem c06_quantile_minmax_only_defect :
-    ((evalAgg 8096 (fun _ => 0) .quantile [(1, 1)] false (fun _ => "") witnessFval witnessEvs).bind
+    ((evalAgg false 8096 (fun _ => 0) .quantile [(1, 1)] false (fun _ => "") witnessFval witnessEvs).bind
       (fun a => (aggregate false .quantile [(1, 1)] false a).map (fun r => r.buckets.map (·.quantiles)))) = some [[Val.nan]] := by
   decide
 
 /-- ... although the container holds the right maximum, and with an inner quantile in the list the answer is 3 -/
 theorem c06_quantile_minmax_only_defect_contrast :
-    ((evalAgg 8096 (fun _ => 0) .quantile [(1, 1), (1, 2)] false (fun _ => "") witnessFval witnessEvs).bind
+    ((evalAgg false 8096 (fun _ => 0) .quantile [(1, 1), (1, 2)] false (fun _ => "") witnessFval witnessEvs).bind
       (fun a => (aggregate false .quantile [(1, 1), (1, 2)] false a).map (fun r => r.buckets.map (·.quantiles))))
       = some [[Val.int 3, Val.int 2]] := by
   decide
 
 /-- the repaired `Quantile` answers the witness correctly -/
 theorem c06_quantile_minmax_only_fixed :
-    ((evalAgg 8096 (fun _ => 0) .quantile [(1, 1)] false (fun _ => "") witnessFval witnessEvs).bind
+    ((evalAgg false 8096 (fun _ => 0) .quantile [(1, 1)] false (fun _ => "") witnessFval witnessEvs).bind
       (fun a => (aggregate true .quantile [(1, 1)] false a).map (fun r => r.buckets.map (·.quantiles)))) = some [[Val.int 3]] := by
   decide
+
+/-! ## the code as found drops documents from time-series results: group without field
+
+With group-by + field + a time interval, a matching document that has the group but not the field is tallied in the
+bin *without time* (`groupByNotExists[groupBySource]++`), and `Aggregate` skips that bin for time series
+(`SkipWithoutTimestamp`): the document is reported nowhere - neither in a bucket's `NotExists` nor in the result's.
+(Without a group, the same query reports it in its time bin: `c06_field_stats`.)  Witness: one document, time bin
+10, group "a", no field.  fixes/C06-group-not-exists-per-time-bin.patch tallies it under its own time bin. -/
+
+def witnessGone : List Ev := [⟨10, some 1, none⟩]
+def witnessGval : Nat → String := fun i => String.ofList (List.replicate i 'a')
+
+/-- as found: the time-series answer is empty - the document is gone -/
+theorem c06_group_not_exists_dropped_defect :
+    ((evalAgg false 8096 (fun _ => 0) .sum [] true witnessGval (fun _ => none) witnessGone).bind
+      (fun a => (aggregate true .sum [] true a).map (fun r => (r.buckets.map (fun b => (b.mid, b.name, b.notExists)), r.notExists))))
+      = some ([], 0) := by decide
+
+/-- repaired: the bucket of its time bin reports it -/
+theorem c06_group_not_exists_dropped_fixed :
+    ((evalAgg true 8096 (fun _ => 0) .sum [] true witnessGval (fun _ => none) witnessGone).bind
+      (fun a => (aggregate true .sum [] true a).map (fun r => (r.buckets.map (fun b => (b.mid, b.name, b.notExists)), r.notExists))))
+      = some ([(10, "a", 1)], 0) := by decide
+
+/-- **full statement for the repaired tally** (`pb = true`): every bin `(time bin, group token)` of the merged result
+carries the number of matching documents of that group *and that time bin* that lack the field; for the code as
+found (`pb = false`) `c06_group_stats_merged` only gives them lumped into the bin without time, i.e. it is the
+`_partial` form of this statement. -/
+theorem c06_group_not_exists_per_bin (lim : Nat) (pick : List Int → Nat) (collect : Bool) (t : MTree Frac)
+    (hok : ∀ f, f ∈ t.leaves → (∀ a b, f.gval a = f.gval b → a = b) ∧ ParseOk f.fval f.evs)
+    (hl : collect = true → ∀ k, (groupVals k (t.leaves.flatMap Frac.tdocs)).length ≤ lim) (k : Bin) :
+    groupMissing true k (t.leaves.flatMap Frac.tdocs) =
+      ((t.leaves.flatMap Frac.tdocs).filter fun d => d.bin = k.mid ∧ d.g = some k.token ∧ d.v.isNone).length ∧
+    ORep (groupPres true k (t.leaves.flatMap Frac.tdocs)) (groupVals k (t.leaves.flatMap Frac.tdocs))
+      (groupMissing true k (t.leaves.flatMap Frac.tdocs)) collect
+      (((t.map (Frac.groupLeaf true lim pick collect)).eval (mergeLeaf lim pick)).a.get k) :=
+  ⟨by simp [groupMissing, missingBin], (group_stats_merged true lim pick collect t hok hl).2 k⟩
 
 /-! ## Obligations on facts re-extracted from /repo on every run -/
 
@@ -347,6 +429,13 @@ theorem c06_x_aggregate :
     skipConds = ["args.SkipWithoutTimestamp && bin.MID == consts.DummyMID"] ∧
     collectSamplesExpr = [":= query.Func == seq.AggFuncQuantile && haveNotMinMaxQuantiles(query.Quantiles)"] ∧
     innerQuantileConds = ["quantile > minQuantile && quantile < maxQuantile"] := by decide
+
+/-- `TwoSourceAggregator.Next`: how a document of a group without the field is tallied (as found / repaired);
+the model and the driver follow the extracted flag -/
+theorem c06_x_group_not_exists :
+    (groupNotExistsIncr = ["n.groupByNotExists[groupBySource]++"] ∧ groupNotExistsPerBin = false) ∨
+    (groupNotExistsIncr = ["n.groupByNotExists[AggBin[uint32]{MID: n.extractMID(seq.LID(lid)), Source: groupBySource}]++"] ∧
+      groupNotExistsPerBin = true) := by decide
 
 /-- histogram bucket rule of `iterateEvalTree`, accumulation in `MergeQPRs`, time bins of `provideExtractTimeFunc` -/
 theorem c06_x_hist :
@@ -385,7 +474,7 @@ example : LidsSorted false [1, 2, 3, 4, 5] ∧ LidsSorted true [5, 3, 1] := by
 
 example :
     twoDocs 0 0 [⟨0, some 0, some 0⟩, ⟨0, some 0, some 1⟩, ⟨0, some 1, some 0⟩, ⟨0, some 1, none⟩, ⟨0, none, some 2⟩] ≠ [] ∧
-    twoMissing 1 [⟨0, some 0, some 0⟩, ⟨0, some 0, some 1⟩, ⟨0, some 1, some 0⟩, ⟨0, some 1, none⟩, ⟨0, none, some 2⟩] = 1 ∧
+    twoMissing false 0 1 [⟨0, some 0, some 0⟩, ⟨0, some 0, some 1⟩, ⟨0, some 1, some 0⟩, ⟨0, some 1, none⟩, ⟨0, none, some 2⟩] = 1 ∧
     ParseOk (fun i => some (i + 10)) [⟨0, some 0, some 0⟩, ⟨0, some 1, none⟩] := by
   refine ⟨by decide, by decide, ?_⟩
   intro ev _ s _; rfl
@@ -395,7 +484,7 @@ example :
     let f : Frac := ⟨fun i => String.ofList (List.replicate i 'a'), fun i => some (i + 10),
       [⟨0, some 0, some 0⟩, ⟨0, some 1, none⟩, ⟨0, none, some 2⟩]⟩
     ((∀ a b, f.gval a = f.gval b → a = b) ∧ ParseOk f.fval f.evs) ∧
-    groupVals ⟨0, ""⟩ (Frac.tdocs f) = [10] ∧ groupMissing ⟨0, "a"⟩ (Frac.tdocs f) = 1 := by
+    groupVals ⟨0, ""⟩ (Frac.tdocs f) = [10] ∧ groupMissing true ⟨0, "a"⟩ (Frac.tdocs f) = 1 := by
   refine ⟨⟨?_, ?_⟩, by decide, by decide⟩
   · intro a b h
     have := congrArg String.toList h
